@@ -71,7 +71,9 @@ Print Assumptions C02_sprint_leaf_noninterference.
    depth - over related leaves, and VALUES OF USER TYPES whose String / Error / GoString method
    returns related strings (no Formatter / SafeFormatter / SafeMessager; methods that return; error
    values only when no error hook is installed) [vrel]; container types not declared safe; and
-   for Unsafe(x) with x such a tree and Safe(x) with x a leaf [arel]. *)
+   for Unsafe(x) with x such a tree and Safe(x) with x a leaf [arel]; and for values whose Format /
+   SafeFormat method runs a SCRIPT against the printer - the same sequence of SafeWriter / io.Writer
+   calls with related payloads, nested Print / Printf on related operands [actrel]. *)
 Theorem C02_sprintf_tree_noninterference : forall fuel env f a1 a2 o1 o2,
   osane (orc env) -> no_star f = true -> Forall2 (arel (hooked env)) a1 a2 ->
   sprintf fuel env f a1 = ROk o1 -> sprintf fuel env f a2 = ROk o2 ->
@@ -155,12 +157,16 @@ Definition c02_tree (name : bytes) (id : Z) (tag : bytes) (x : Z) : list value :
    (* Unsafe(struct with a declared-safe field): everything inside the envelope *)
    VUnsafe (VStruct (c02_t [109;97;105;110;46;81]%N)
               [([75]%N, true, VStr (mkT [83;118;83;116;114]%N true false) [111;107]%N); ([86]%N, true, VInt c02_ti id)]);
-   VSafe (VStr c02_ts [118;49;46;50]%N) []].
-Definition c02_fmt2 : bytes := [37;43;118;124;37;118;124;37;118;124;37;118;124;37;118;124;37;115]%N.
+   VSafe (VStr c02_ts [118;49;46;50]%N) [];
+   VUser (c02_t [109;97;105;110;46;83;70]%N) (mkI true false false false false false) false
+         (VStruct (c02_t [109;97;105;110;46;83;70]%N) [])
+         [ASafeString [117;115;101;114;61]%N; AUnsafeString name;
+          APrintf [32;105;100;61;37;100]%N [VInt c02_ti id]; APrint [VStr c02_ts tag]]].
+Definition c02_fmt2 : bytes := [37;43;118;124;37;118;124;37;118;124;37;118;124;37;118;124;37;115;124;37;118]%N.
 
 Lemma c02_trees_related : Forall2 (arel (hooked (mkEnv c02_orc None))) (c02_tree [97;98]%N 42 [120;10;121]%N 5) (c02_tree [99;100]%N 4711 [122;10;122]%N 77).
 Proof.
-  unfold c02_tree. constructor; [left|constructor; [left|constructor; [left|constructor; [left|constructor; [right; left|constructor; [right; right|constructor]]]]]].
+  unfold c02_tree. constructor; [apply ar_v|constructor; [apply ar_v|constructor; [apply ar_v|constructor; [apply ar_v|constructor; [apply ar_unsafe|constructor; [apply ar_safe|constructor; [apply ar_v|constructor]]]]]]].
   - apply vr_struct; [reflexivity | reflexivity|].
     constructor; [split; [reflexivity|]; apply vr_leaf; c02_lrel; split; [reflexivity | c02_srel]|].
     constructor; [split; [reflexivity|]; apply vr_leaf; c02_lrel; split; [reflexivity|]; unfold irel, Fmt.two64; lia|].
@@ -175,11 +181,17 @@ Proof.
     constructor; [|constructor]. split; [reflexivity|]. apply vr_leaf. c02_lrel. split; [reflexivity | c02_srel].
   - apply vr_slice; [reflexivity | reflexivity|]. constructor; [|constructor]. apply vr_iface.
     apply vr_user; try reflexivity; [right; c02_srel | apply vr_ptr_nil; reflexivity].
-  - eexists _, _. split; [reflexivity|]. split; [reflexivity|].
-    apply vr_struct; [reflexivity | reflexivity|].
+  - apply vr_struct; [reflexivity | reflexivity|].
     constructor; [split; [reflexivity|]; apply vr_leaf, lrel_refl; reflexivity|].
     constructor; [|constructor]. split; [reflexivity|]. apply vr_leaf. c02_lrel. split; [reflexivity|]. unfold irel, Fmt.two64. lia.
-  - eexists _, _. split; [reflexivity|]. split; reflexivity.
+  - reflexivity.
+  - (* a SafeFormatter: p.SafeString("user="); p.UnsafeString(name); p.Printf(" id=%d", id); p.Print(tag) *)
+    apply vr_sfuser; try reflexivity; [|apply vr_struct; [reflexivity | reflexivity | constructor]].
+    constructor; [apply ac_same; exact Logic.I|].
+    constructor; [apply ac_us; right; c02_srel|].
+    constructor; [apply ac_printf; [reflexivity|]; constructor; [|constructor]; apply ar_v, vr_leaf; c02_lrel; split; [reflexivity|]; unfold irel, Fmt.two64; lia|].
+    constructor; [apply ac_print; constructor; [|constructor]; apply ar_v, vr_leaf; c02_lrel; split; [reflexivity | c02_srel]|].
+    constructor.
 Qed.
 
 Example C02_tree_nonvacuous :
